@@ -423,6 +423,7 @@ fn insert_body(faults: bool, symbolic_content: bool)
         if faults
         {
             fsm::FAIL_MASK = kani::any();
+            fsm::ERR_KIND = kani::any();
         }
         fsm::DRAIN = kani::any();
         NIDS = 0;
@@ -449,7 +450,7 @@ fn insert_body(faults: bool, symbolic_content: bool)
         if need == 0
         {
             assert!(fsm::OPS == 0 && !r.failure && r.num_inserted_references == 0,
-                "C03: a file with nothing missing is not touched");
+                "C03/C13: a file with nothing missing is not touched");
         }
         // C08: an injected failure is reported
         if injected || fsm::SILENT_FAILURES > 0
@@ -457,7 +458,7 @@ fn insert_body(faults: bool, symbolic_content: bool)
             assert!(r.failure, "C08: a failed filesystem operation is reported as failure");
         }
         // C01: ids handed out are start, start+1, ... without wrapping
-        assert!(NIDS <= need, "C01: at most one id per statement lacking a reference");
+        assert!(NIDS <= need, "C01/C13: at most one id per statement lacking a reference");
         let mut k = 0;
         while k < NENT
         {
@@ -477,10 +478,10 @@ fn insert_body(faults: bool, symbolic_content: bool)
             {
                 assert!(fsm::SRC_STATE[0] == fsm::REPLACED && fsm::T_OK && fsm::T_DISK == fsm::EXPECT_LEN
                     && fsm::T_ACC == fsm::EXPECT_LEN,
-                    "C03: edited file is the original bytes plus one token per missing statement, in place");
+                    "C03/C13: edited file is the original bytes plus one token per missing statement, in place");
             }
             assert!(r.num_inserted_references == need, "C05: reported count equals tokens inserted");
-            assert!(NIDS == need, "C01: one id per statement lacking a reference");
+            assert!(NIDS == need, "C01/C13: one id per statement lacking a reference");
         }
         else
         {
@@ -772,7 +773,7 @@ where
         let mut i = 0;
         while i < G_NFILES
         {
-            v.push(CodeFile::new(String::new(), CodeLanguage::Rust));
+            v.push(CodeFile::new(String::from(if i == 0 { "a" } else { "b" }), CodeLanguage::Rust));
             i += 1;
         }
         this.code_files = v;
@@ -1024,5 +1025,182 @@ fn d_check()
             assert!(res.is_err() == (G_MISSING > 0), "C05: --check fails exactly when a reference is missing");
         }
     }
+    std::mem::forget(ctx);
+}
+
+
+// ---------------------------------------------------------------------------------------------
+// U-load : load_code returns exactly what is on disk (or None)
+// ---------------------------------------------------------------------------------------------
+#[kani::proof]
+#[kani::unwind(8)]
+fn u_load()
+{
+    // content: NBYTES symbolic ASCII bytes, optionally preceded by a UTF-8 byte order mark
+    let c = any_ascii_content();
+    let bom: bool = kani::any();
+    let mut v: Vec<u8> = Vec::with_capacity(NBYTES + 3);
+    if bom
+    {
+        v.push(0xEF);
+        v.push(0xBB);
+        v.push(0xBF);
+    }
+    let mut i = 0;
+    while i < c.len
+    {
+        v.push(c.bytes[i]);
+        i += 1;
+    }
+    let total = v.len();
+    unsafe {
+        fsm::reset();
+        fsm::SRC_PRESENT[0] = true;
+        fsm::UNREADABLE[0] = kani::any();
+        fsm::READ_CONTENT[0] = Some(String::from_utf8_unchecked(v));
+        fsm::FAIL_MASK = kani::any();
+    }
+    let r = load_code(&String::from("a"));
+    unsafe {
+        let readable = !fsm::UNREADABLE[0] && fsm::FAILED_OPS == 0;
+        kani::cover!(bom && readable && c.len == NBYTES, "file with a byte order mark");
+        assert!(fsm::MUTATIONS == 0, "C04: reading a file changes nothing");
+        match r
+        {
+            None => assert!(!readable, "C17: a readable file is loaded"),
+            Some(s) =>
+            {
+                assert!(readable, "C17: an unreadable file is reported and skipped");
+                let b = s.as_bytes();
+                assert!(b.len() == total, "C03: the text that is parsed and written back is exactly the file content");
+                let off = if bom { 3 } else { 0 };
+                if bom
+                {
+                    assert!(b[0] == 0xEF && b[1] == 0xBB && b[2] == 0xBF, "C03: the text that is parsed and written back is exactly the file content");
+                }
+                let mut k = 0;
+                while k < c.len
+                {
+                    assert!(b[off + k] == c.bytes[k], "C03: the text that is parsed and written back is exactly the file content");
+                    k += 1;
+                }
+                std::mem::forget(s);
+            },
+        }
+    }
+}
+
+// ---------------------------------------------------------------------------------------------
+// U-pr : the real process_references loop with an abstract processor
+// ---------------------------------------------------------------------------------------------
+static mut PR_MAPPED: [usize; 4] = [9; 4];
+static mut PR_NMAPPED: usize = 0;
+static mut PR_REDUCED: bool = false;
+static mut PR_FLAG_AT_MAP: [bool; 4] = [false; 4];
+
+struct AbstractProcessor {}
+impl ReferenceProcessor<u32, u8, u32> for AbstractProcessor
+{
+    fn map(path: &str, _c: &str, _p: &Option<u32>, _e: &[parser::LogRefEntry]) -> Option<u8>
+    {
+        unsafe {
+            if PR_NMAPPED < 4
+            {
+                PR_MAPPED[PR_NMAPPED] = fsm::path_id(path.as_bytes());
+            }
+            PR_NMAPPED += 1;
+            // working on a file is an operation boundary: a signal may arrive here
+            let _ = fsm::begin_op();
+        }
+        Some(1)
+    }
+    fn reduce(rs: &[u8]) -> Option<u32>
+    {
+        unsafe {
+            PR_REDUCED = true;
+        }
+        Some(rs.len() as u32)
+    }
+}
+
+fn stub_find_references(_l: CodeLanguage, _code: &str, _config: &Config) -> Vec<LogRefEntry>
+{
+    Vec::new()
+}
+
+#[kani::proof]
+#[kani::unwind(4)]
+#[kani::stub(crate::codegen::finder::CodeFinder::find, stub_finder_find)]
+#[kani::stub(crate::parser::code_parser::find_references, stub_find_references)]
+fn u_pr()
+{
+    unsafe {
+        fsm::reset();
+        reset_ghost();
+        G_NFILES = 2;
+        G_FINDER_FAILS = false;
+        fsm::SRC_PRESENT[0] = true;
+        fsm::SRC_PRESENT[1] = true;
+        fsm::UNREADABLE[0] = kani::any();
+        fsm::UNREADABLE[1] = kani::any();
+        fsm::SIGNAL_AT = kani::any();
+        PR_NMAPPED = 0;
+        PR_REDUCED = false;
+    }
+    let initial: bool = kani::any();
+    let ctx = Context {
+        config: Config {
+            config_dir: String::new(),
+            source_dir: String::new(),
+            use_cache: false,
+            rust: RustConfig { structured: false, log_macros: Vec::new(), extensions: Vec::new() },
+        },
+        cached_next_reference_id: None,
+        check_mode: true,
+        stop_commanded: Arc::new(AtomicBool::new(initial)),
+    };
+    unsafe {
+        fsm::STOP_FLAG = Some(ctx.stop_commanded.clone());
+    }
+    let finder = CodeFinder::new(&ctx).unwrap();
+    let r = process_references::<AbstractProcessor, u32, u8, u32>(&ctx, None, &finder);
+    unsafe {
+        let ua = fsm::UNREADABLE[0];
+        let ub = fsm::UNREADABLE[1];
+        let stopped = initial || fsm::SIGNAL_DELIVERED;
+        kani::cover!(!stopped && !ua && !ub, "both files processed");
+        kani::cover!(fsm::SIGNAL_DELIVERED && PR_NMAPPED == 1, "stopped between the files");
+        kani::cover!(ua && !ub && r.is_some(), "first file unreadable, second processed");
+        assert!(fsm::MUTATIONS == 0, "C04: the scan loop itself writes nothing");
+        if initial
+        {
+            assert!(r.is_none() && fsm::READS == 0 && PR_NMAPPED == 0, "C18: a stop request pending at the start means no file is touched");
+        }
+        if stopped
+        {
+            assert!(r.is_none() && !PR_REDUCED, "C18: a stop request always ends the pass without a result");
+        }
+        else
+        {
+            assert!(r.is_some() && PR_REDUCED, "C05: an uninterrupted pass produces a result");
+            let expect = (if ua { 0 } else { 1 }) + (if ub { 0 } else { 1 });
+            assert!(PR_NMAPPED == expect, "C17: every readable file is processed exactly once, unreadable ones are skipped");
+            assert!(r.unwrap() as usize == expect, "C05: the result is reduced from every processed file");
+            if !ua
+            {
+                assert!(PR_MAPPED[0] == 0, "C05: files are processed in discovery order");
+            }
+            if !ub
+            {
+                assert!(PR_MAPPED[expect - 1] == 1, "C05: files are processed in discovery order");
+            }
+        }
+        // files already started are finished: a signal during file k's map does not lose that file
+        if fsm::SIGNAL_DELIVERED && !initial
+        {
+            assert!(PR_NMAPPED <= 2, "C18: no file is processed twice");
+        }
+    }
+    std::mem::forget(finder);
     std::mem::forget(ctx);
 }
